@@ -19,6 +19,33 @@ def replay(spec):
         q.py_set_current_time(t0)
         ok = ok and abs(q.py_get_next_queue_time() - (t0 + dt)) < 1e-12
         return {"reproduced": not ok, "observed": q.py_get_next_queue_time(), "expected": t0 + dt}
+    if op == "retime":
+        # an advanced queue with pending entries is given a new clock: the entries must come out at the same distances
+        q.py_set_current_time(0.0)
+        for _ in range(start):
+            q.py_advance_time()
+        pend = {}
+        for i in range(R):
+            for k in range(C):
+                amt = float(int(abs(float(v.get("q[%d,%d]" % (i, (k + start) % C), 0.0))) % 5) + (1 if (i + k) % 2 == 0 else 0))
+                if amt:
+                    q.py_add_reaction(q.py_get_next_queue_time() + k * dt, i, amt)
+                    pend[(i, k)] = amt
+        t1 = float(v.get("t1", 10.0))
+        q.py_set_current_time(t1)
+        bad = []
+        for k in range(C):
+            a = np.zeros(R)
+            tq = q.py_get_next_queue_time()
+            q.py_get_next_reactions(a)
+            for i in range(R):
+                if abs(a[i] - pend.get((i, k), 0.0)) > 1e-12:
+                    bad.append("after set_current_time(%s) on a queue advanced %d time(s), slot %d (t=%s) delivers %s of reaction %d; %s were pending "
+                               "there" % (t1, start, k, tq, a[i], i, pend.get((i, k), 0.0)))
+            if abs(tq - (t1 + (k + 1) * dt)) > 1e-9 * max(1.0, abs(tq)):
+                bad.append("slot %d is labelled t=%s, expected %s" % (k, tq, t1 + (k + 1) * dt))
+            q.py_advance_time()
+        return {"reproduced": bool(bad), "observed": bad[:3], "expected": "pending entries keep their distance from the read position"}
     q.py_set_current_time(nqt - dt - start * dt)
     for _ in range(start):
         q.py_advance_time()
